@@ -31,6 +31,10 @@ CutCtxs == {"cancelled", "expired", "expiredwarm", "cancelmid"}
 TplC17r == {P("ok", "", <<"word">>), P("rpc", "any", <<>>)}
 FullReq == {"full"}
 AllReqs == {"full", "noext", "emptyext", "customext", "nocrit", "emptycrit", "noprins", "oneprin", "zeroval", "maxval", "nokeymeta", "bare"}
+\* C17, both tiers: two signing calls on one Signer, each with its own outcome vector
+TplC17m == {P("ok", "", <<"word">>), P("ok", "", <<"none", "spaces">>), P("rpc", "any", <<>>)}
+OneCall == {1}
+TwoCalls == {2}
 NoBundle == {[cas |-> {}, lay |-> "none"]}
 
 \* C18: server identity x protocol range x client-certificate policy
@@ -55,6 +59,8 @@ TplC18s == {T("ca1", "tls13", "request", "ok", "", <<"word">>), T("ca1b", "tls13
             T("foreign", "tls13", "ignore", "ok", "", <<"word">>)}
 SameSubjectBundles == {[cas |-> {"ca1", "ca1b"}, lay |-> l] : l \in {"two", "tworev", "concat", "concatrev"}}
                       \cup {[cas |-> {"ca1"}, lay |-> "one"], [cas |-> {"ca1b"}, lay |-> "one"]}
+\* C18, both tiers: validity boundaries of the server certificate
+TplC18e == {T(x, "tls13", "request", "ok", "", <<"word">>) : x \in {"ca1", "valid2m", "expired1m", "expired4m", "expired10m", "notyet1m", "notyet4m"}}
 Ca1Only == {[cas |-> {"ca1"}, lay |-> "one"]}
 Ample == {"ample"}
 One == {1}
@@ -79,5 +85,5 @@ BoTable == [base |-> {"zero", "small", "max"}, mult |-> {"1", "1.5", "3", "1e308
 BoModel == [cfgs |-> BoCfgs, attempts |-> BoAttempts]
 ASSUME PrintT(<<"BOT", ToJson([classes |-> BoTable, model |-> BoModel])>>)
 
-EmitCase == (pc = "new" /\ last.op = "init") => PrintT(<<"CASE", ToJson([eps |-> eps, bundle |-> bundle, ctx |-> env.ctx, req |-> env.req, tries |-> env.tries, hist |-> env.hist])>>)
+EmitCase == (pc = "new" /\ last.op = "init") => PrintT(<<"CASE", ToJson([eps |-> eps, bundle |-> bundle, ctx |-> env.ctx, next |-> env.next, req |-> env.req, tries |-> env.tries, hist |-> env.hist])>>)
 =============================================================================
